@@ -414,19 +414,43 @@ func c10TrimStack(s string) string {
 // crashbox: parent
 // ---------------------------------------------------------------------------
 
-func TestVerifC10Crash(t *testing.T) {
-	r := verifkit.Start(t, "C10", "crash")
-	defer r.Finish("crashbox: a PRNG-determined corpus (valid franz-go encodings of every kmsg request key/version; structure-aware mutations: frame size 0/-1/2^31-1/off-by-one, client-id length, header and body tagged-field sections with counts/sizes 0..2^64-1 and over-long varints, int32/int16 overwrites, truncation at every byte, version/key swaps, several frames per stream, uniform noise) is fed by child processes through ReadFrame (reader returning 1..n bytes per call) -> ParseRequestHeader -> ParseRequest -> ParseRequestBody, as broker.Server.handleConnection does; each call must return a value or an error: a recovered panic or a child death (attributed to the index logged before the call) is a violation; also the three entry points must agree with each other on the same bytes. non-trivial = the frame was read and carried an API key known to the codec, so the header/body parser ran",
+const c10CrashRule = "[crash] crashbox: a PRNG-determined corpus (valid franz-go encodings of every kmsg request key/version; structure-aware mutations: frame size 0/-1/2^31-1/off-by-one, client-id length, header and body tagged-field sections with counts/sizes 0..2^64-1 and over-long varints, int32/int16 overwrites, truncation at every byte, version/key swaps, several frames per stream, uniform noise) is fed by child processes through ReadFrame (reader returning 1..n bytes per call) -> ParseRequestHeader -> ParseRequest -> ParseRequestBody, as broker.Server.handleConnection does; each call must return a value or an error: a recovered panic or a child death (attributed to the index logged before the call) is a violation; also the three entry points must agree with each other on the same bytes. non-trivial = the frame was read and carried an API key known to the codec, so the header/body parser ran"
+
+const c10RoundtripRule = "[roundtrip] for every request key known to the codec x every version 0..max x PRNG bodies (all fields from the full value range, nil/empty/filled arrays, nullable fields both ways, unknown tagged fields) and client id nil/empty/ascii/unicode/long: the frame produced by franz-go's kmsg.RequestFormatter is read with ReadFrame (chunked reader) and ParseRequest; oracle: same api key, version, correlation id, client id (nil stays nil, empty stays empty); the returned request re-encodes to exactly the client's body bytes and is deeply equal to what the codec itself decodes from those body bytes; ParseRequestHeader returns exactly the body bytes. non-trivial = body is non-empty"
+
+// TestVerifC10Decode is the in-process leg: the crashbox (children do the parsing, the parent waits) and, while the
+// children run, the round trip of client-encoded requests. One go test invocation, one result file.
+func TestVerifC10Decode(t *testing.T) {
+	r := verifkit.Start(t, "C10", "decode")
+	defer r.Finish(c10CrashRule+" ;; "+c10RoundtripRule,
 		"a large up-front allocation for an honestly announced frame size is recorded (counter huge_alloc_calls), not judged: the statement says crash",
 		"a child death while processing an input whose size prefix announces >= 128 MiB is attributed to that allocation and recorded as an observation",
-		"ControlledShutdown v0 (header without client id, not served by KafScale) is excluded from the valid encodings",
+		"ControlledShutdown v0 (header without client id by protocol definition, not served by KafScale) is excluded from the valid encodings and from the round trip",
 		"budget only: an input whose decode uses more than 250 ms of process CPU time is recorded as slow (stage_slow_not_judged) and the child restarts after it; slowness is not judged. Cause seen: the codec's body tag reader (kmsg internalReadTags) loops `count` times even after the input is exhausted, so a 5-byte count in a flexible body costs up to 2^32 iterations; the corpus keeps deliberate body tag counts <= 128, the rest arise from reinterpreted bytes",
-		"backstop: a child that logs no new index for 180 s of wall time is killed and the input skipped (counter stalled_inputs_skipped)")
-
-	corpus := verifkreq.Corpus(r.Rand(0), verifkreq.CorpusSizes{Thorough: r.Thorough()})
+		"backstop: a child that logs no new index for 180 s of wall time is killed and the input skipped (counter stalled_inputs_skipped)",
+		"round trip: body equality is judged on the wire bytes and on the codec's own decode of them (kmsg is the codec on both sides)")
 	replaying := false
-	if in, ok := c10ReplayInput("crash"); ok { // bin/check C10 --replay <witness>: only that client stream
-		corpus, replaying = []verifkreq.Input{in}, true
+	var replayIn verifkreq.Input
+	if in, ok := c10ReplayInput("decode"); ok { // bin/check C10 --replay <witness>: only that client stream
+		replayIn, replaying = in, true
+	}
+	rtDone := make(chan struct{})
+	go func() {
+		defer close(rtDone)
+		if !replaying {
+			c10Roundtrip(r)
+		}
+	}()
+	c10Crash(t, r, replaying, replayIn)
+	<-rtDone
+}
+
+func c10Crash(t *testing.T, r *verifkit.Run, replaying bool, replayIn verifkreq.Input) {
+	tGen := time.Now()
+	corpus := verifkreq.Corpus(r.Rand(0), verifkreq.CorpusSizes{Thorough: r.Thorough()})
+	t.Logf("corpus: %d inputs built in %s", len(corpus), time.Since(tGen).Round(time.Millisecond))
+	if replaying {
+		corpus = []verifkreq.Input{replayIn}
 	}
 	dir := os.Getenv("VERIF_SCRATCH")
 	if dir == "" {
@@ -666,11 +690,7 @@ func c10Clip(b []byte, n int) []byte {
 // round trip
 // ---------------------------------------------------------------------------
 
-func TestVerifC10Roundtrip(t *testing.T) {
-	r := verifkit.Start(t, "C10", "roundtrip")
-	defer r.Finish("for every request key known to the codec x every version 0..max x PRNG bodies (all fields from the full value range, nil/empty/filled arrays, nullable fields both ways, unknown tagged fields) and client id nil/empty/ascii/unicode/long: the frame produced by franz-go's kmsg.RequestFormatter is read with ReadFrame (chunked reader) and ParseRequest; oracle: same api key, version, correlation id, client id (nil stays nil, empty stays empty); the returned request re-encodes to exactly the client's body bytes and is deeply equal to what the codec itself decodes from those body bytes; ParseRequestHeader returns exactly the body bytes. non-trivial = body is non-empty",
-		"ControlledShutdown v0 (no client id in its header by protocol definition, not served by KafScale) is excluded",
-		"body equality is judged on the wire bytes and on the codec's own decode of them (kmsg is the codec on both sides)")
+func c10Roundtrip(r *verifkit.Run) {
 	handled := map[int16]bool{}
 	for _, k := range verifkreq.HandledKeys {
 		handled[k] = true
